@@ -365,27 +365,29 @@ func (m *c14M) processConf(c *c14ConfClient, ck c14Call) {
 			m.failf("%s: Confirmed height %d differs from updates "+
 				"height %d", who, d.BlockHeight, c.infH)
 		}
-		// Known candidate finding: a RegisterConf that lands between
-		// ConnectTip and NotifyHeight dispatches to the *other*
-		// clients of the request with the registrant's block option.
-		foreign := ck.kind == c14CkRegister && ck.registrant != c
-		if (d.Block != nil) != c.includeBlock && foreign &&
-			m.known(c14KeyBlockOpt) {
-
+		// The block is delivered iff the client asked for it, and it is
+		// the inclusion block. Known candidate finding (narrow
+		// exclusion): a RegisterConf of *another* client that lands
+		// between ConnectTip and NotifyHeight dispatches to this client
+		// with the registrant's block option.
+		if d.Block != nil && d.Block.BlockHash() != f.block.hash {
+			m.failf("%s: Confirmed carries a block that is not the "+
+				"inclusion block", who)
+		}
+		if (d.Block != nil) != c.includeBlock {
+			foreign := ck.kind == c14CkRegister &&
+				ck.registrant != nil && ck.registrant != c &&
+				ck.registrant.r == c.r &&
+				ck.registrant.includeBlock != c.includeBlock &&
+				m.midConnect
+			if !(foreign && m.known(c14KeyBlockOpt)) {
+				m.failf("%s: block requested=%v but delivered=%v "+
+					"[%s]", who, c.includeBlock, d.Block != nil,
+					c14KeyBlockOpt)
+			}
 			m.flags["known_block_option"] = true
 		} else if c.includeBlock {
-			if d.Block == nil {
-				m.failf("%s: block requested but Confirmed has "+
-					"none [%s]", who, c14KeyBlockOpt)
-			}
-			if d.Block.BlockHash() != f.block.hash {
-				m.failf("%s: Confirmed carries a block that is "+
-					"not the inclusion block", who)
-			}
 			m.flags["include_block"] = true
-		} else if d.Block != nil {
-			m.failf("%s: block not requested but delivered [%s]",
-				who, c14KeyBlockOpt)
 		}
 		c.outstanding = d
 		c.informed = true
@@ -678,9 +680,7 @@ func (m *c14M) hintBounds() {
 			}
 			m.flags["hint_checked_confirmed"] = true
 		} else if h > tip+1 && r.session == m.session {
-			r.invalid = m.hintAboveTip(
-				"confirm", r.name, h, r.pending != nil,
-			)
+			m.hintAboveTip("confirm", r.name, h, r.pending != nil)
 		}
 	}
 	for _, r := range m.spendReqs {
@@ -702,9 +702,7 @@ func (m *c14M) hintBounds() {
 			}
 			m.flags["hint_checked_spent"] = true
 		} else if h > tip+1 && r.session == m.session {
-			r.invalid = m.hintAboveTip(
-				"spend", r.name, h, r.pending != nil,
-			)
+			m.hintAboveTip("spend", r.name, h, r.pending != nil)
 		}
 	}
 }
@@ -713,20 +711,17 @@ func (m *c14M) hintBounds() {
 // that points beyond the next block. Such a hint claims "not confirmed below
 // h" for blocks that do not exist yet; it turns into a hint above the real
 // confirmation height as soon as the tx confirms below h while the request is
-// not watched (restart). On the unchanged tree this happens for requests whose
-// rescan is pending while blocks are disconnected (known candidate finding).
-// returns true if the request was taken out of the domain.
-func (m *c14M) hintAboveTip(kind, name string, h uint32,
-	pending bool) bool {
-
+// not watched (restart). On the unchanged tree this happens exactly for
+// requests whose rescan is pending while blocks are disconnected (known
+// candidate finding c14KeyPendingHint, narrow exclusion: only while the
+// harness still owes the answer of that rescan).
+func (m *c14M) hintAboveTip(kind, name string, h uint32, pending bool) {
 	if pending && m.known(c14KeyPendingHint) {
 		m.flags["known_pending_hint"] = true
-		return true
+		return
 	}
 	m.failf("%s hint %d for the watched, unconfirmed %s is above tip+1=%d "+
 		"[%s]", kind, h, name, m.ch.tip+1, c14KeyPendingHint)
-
-	return false
 }
 
 const (
@@ -743,12 +738,11 @@ const (
 	c14KeyPendingHint = "C14:pending-rescan-hint-not-lowered-on-disconnect"
 )
 
-// known reports whether a candidate finding is listed as known (or assumed
-// known through the dev-only VERIF_C14_ASSUME_KNOWN list) and records the hit.
+// known reports whether a candidate finding is listed with status "known" in
+// known_findings.json and records the hit. With status "fixed" (or no entry)
+// the class is generated and asserted like everything else.
 func (m *c14M) known(key string) bool {
-	if !vstats.IsKnown(key) &&
-		!strings.Contains(os.Getenv("VERIF_C14_ASSUME_KNOWN"), key) {
-
+	if !vstats.IsKnown(key) {
 		return false
 	}
 	m.st.Known(key)
@@ -973,35 +967,34 @@ func (m *c14M) actCancel() {
 func (m *c14M) pendingDispatches() (confs []*c14ConfReq,
 	spends []*c14SpendReq) {
 
-	// Known candidate finding: historical details delivered while the
-	// request has no live client are cached but never indexed by height,
-	// so a later disconnect of that block is not noticed. Excluded by
-	// construction: such a dispatch is only answered once a client exists.
-	excl := vstats.IsKnown(c14KeyNoClient) || strings.Contains(
-		os.Getenv("VERIF_C14_ASSUME_KNOWN"), c14KeyNoClient)
-
 	for _, r := range m.confReqs {
-		if r.pending == nil {
-			continue
+		if r.pending != nil {
+			confs = append(confs, r)
 		}
-		if excl && !m.hasLiveConf(r) {
-			m.flags["known_no_client"] = true
-			continue
-		}
-		confs = append(confs, r)
 	}
 	for _, r := range m.spendReqs {
-		if r.pending == nil {
-			continue
+		if r.pending != nil {
+			spends = append(spends, r)
 		}
-		if excl && !m.hasLiveSpend(r) {
-			m.flags["known_no_client"] = true
-			continue
-		}
-		spends = append(spends, r)
 	}
 
 	return confs, spends
+}
+
+// withhold implements the narrow exclusion of the known candidate finding
+// c14KeyNoClient: *found* historical details delivered while the request has
+// no live client are cached but never indexed by height, so a later disconnect
+// of that block goes unnoticed. While the finding is listed as known such an
+// answer is postponed (the dispatch stays pending) until a client exists or
+// the scan comes back empty.
+func (m *c14M) withhold(found, live bool) bool {
+	if !found || live || !m.known(c14KeyNoClient) {
+		return false
+	}
+	m.flags["known_no_client"] = true
+	m.logf("    (answer postponed: details found but no live client)")
+
+	return true
 }
 
 func (m *c14M) hasLiveConf(r *c14ConfReq) bool {
@@ -1026,7 +1019,9 @@ func (m *c14M) hasLiveSpend(r *c14SpendReq) bool {
 
 // actRescan answers one pending historical dispatch from the model's
 // then-active chain.
-func (m *c14M) actRescan() {
+func (m *c14M) actRescan() { m.rescan(false) }
+
+func (m *c14M) rescan(final bool) {
 	confs, spends := m.pendingDispatches()
 	i := c14Uniform(m.t, "dispatch", len(confs)+len(spends))
 	tip := m.ch.tip
@@ -1057,6 +1052,12 @@ func (m *c14M) actRescan() {
 		m.logf("rescanConf %s [%d,%d] txindex=%v -> %v (after %d "+
 			"connects)", r.name, d.start, d.end, txindex,
 			c14FoundStr(f), d.connects)
+		if m.withhold(f != nil, m.hasLiveConf(r)) {
+			if final {
+				r.pending = nil
+			}
+			return
+		}
 		r.pending = nil
 		if d.connects > 0 {
 			m.flags["rescan_late"] = true
@@ -1091,6 +1092,12 @@ func (m *c14M) actRescan() {
 		}
 		m.logf("rescanSpend %s [%d,%d] -> %v (after %d connects)",
 			r.name, d.start, d.end, c14FoundStr(f), d.connects)
+		if m.withhold(f != nil, m.hasLiveSpend(r)) {
+			if final {
+				r.pending = nil
+			}
+			return
+		}
 		r.pending = nil
 		if d.connects > 0 {
 			m.flags["rescan_late"] = true
@@ -1362,10 +1369,28 @@ func (m *c14M) actRestart() {
 	for _, c := range m.spends {
 		c.closed = true
 	}
+	// A pending request whose hint was left above tip+1 by the known
+	// candidate finding c14KeyPendingHint carries that hint into the next
+	// session, where it is simply a wrong hint: out of the domain.
+	tip := m.ch.tip
 	for _, r := range m.confReqs {
+		h, err := m.cache.QueryConfirmHint(r.req)
+		if r.pending != nil && err == nil && h > tip+1 &&
+			m.ch.confOf(r, 0, tip) == nil &&
+			m.known(c14KeyPendingHint) {
+
+			r.invalid = true
+		}
 		r.pending = nil
 	}
 	for _, r := range m.spendReqs {
+		h, err := m.cache.QuerySpendHint(r.req)
+		if r.pending != nil && err == nil && h > tip+1 &&
+			m.ch.spendOf(r, 0, tip) == nil &&
+			m.known(c14KeyPendingHint) {
+
+			r.invalid = true
+		}
 		r.pending = nil
 	}
 	m.session++
@@ -1525,7 +1550,7 @@ func c14RunCase(t *rapid.T, st *vstats.Collector, bolt bool, maxLen int) {
 		if len(pc)+len(ps) == 0 {
 			break
 		}
-		m.actRescan()
+		m.rescan(true)
 	}
 
 	nontrivial := m.flags["reincluded"] || m.flags["rescan_late_found"]
@@ -1548,10 +1573,6 @@ func c14RunCase(t *rapid.T, st *vstats.Collector, bolt bool, maxLen int) {
 	}
 	st.Case(vstats.FP(strings.Join(m.log, "|"), limit), nontrivial, labels,
 		sample)
-	if m.flags["known_no_client"] {
-		st.Known(c14KeyNoClient)
-		st.Count("excluded_known", 1)
-	}
 }
 
 // TestVerifC14Machine runs the machine with the in-memory hint cache.
